@@ -21,3 +21,5 @@ open Just.Props.C14
 #print axioms dry_run_all
 #print axioms runAssigns_dry
 #print axioms runInvs_dry
+#print axioms dry_run_starts_no_backtick
+#print axioms dry_run_assignment_starts_no_backtick
